@@ -51,6 +51,30 @@
 //     likewise seq.CoordinatesType() and geom.NewSequence(floats, ctype), which depend on the flat
 //     representation of a Sequence (operations f_seq_ctype, f_seq_new).
 //
+// A fourth output, coq/Gen/FuncsInt.v (flag -oint; code in int.go, carrier additions in coq/Base/FInt.v),
+// holds INTEGER / BIT level functions: the varint and zig-zag code TWKB uses (geom/twkb.go, the callers in
+// geom/twkb_write.go and geom/twkb_parser.go, and PutUvarint / Uvarint / PutVarint / Varint of
+// encoding/binary, read from the GOROOT of the toolchain in use) and rtree's calculateBound,
+// itemsAreHorizontal, Count, Extent.  It is produced by a fourth, independent generator state in the
+// INTEGER fragment (gen.intm), which adds to the loop fragment:
+//   - every fixed-width integer type as Z with the wrap-around WRITTEN OUT: the result of + - * / % & | ^
+//     &^ << >> unary - and ^ and of every conversion T(x) is wrapped by wrap_u8..wrap_u64 (mod 2^n) or
+//     wrap_i8..wrap_i64 (two's complement); int and uint are 64 bits wide; a shift count must be of an
+//     unsigned type or a non-negative constant; the operator assignments %= &= |= ^= <<= >>= &^=;
+//   - `for cond { body }` as while_loop with a fuel derived from the loop: the condition compares a
+//     variable x of an unsigned type of width W and the body's top level contains `x >>= k`, k a positive
+//     constant: ceil(W/k) iterations (10 for the 64-bit varint writer); LErr if it were ever exhausted;
+//   - slice expressions s[lo:hi] with explicit bounds outcomes, append(a, b...), arrays with their length
+//     (var buf [N]T is N zeros), constants of imported packages in array lengths;
+//   - a function that writes through an argument - elements of a slice argument, fields of a pointer
+//     receiver - returns the final value of that argument after its results (found by re-translation); at a
+//     call the argument must be a variable v (or v[:]) of the caller, which is bound again to that value
+//     (aliasing between distinct variables is not tracked);
+//   - pointers to structs as in the extended fragment (argument / receiver / result = the value); a struct
+//     FIELD of type *T is an option (nil = None, dereference of None = the outcome "nil pointer
+//     dereference"); structs that are recursive through such fields become one mutual Inductive;
+//   - `if A || B` / `if A && B` whose right operand needs a run-time check: rewritten into nested ifs.
+//
 // A function that contains a run-time check (or calls one that does) is translated with the result
 // type `partial T`: Known v for a normal return, Unknown reason where the Go code panics.  A run-time
 // check in the right operand of && or || is outside the fragment (the translation hoists the checks
@@ -74,7 +98,7 @@
 //
 // None of the extensions is active for coq/Gen/Funcs.v.
 //
-//	go run . [-repo DIR] [-o FILE] [-ocarto FILE]     (- writes to stdout)
+//	go run . [-repo DIR] [-o FILE] [-ocarto FILE] [-oloop FILE] [-oint FILE]     (- writes to stdout)
 package main
 
 import (
@@ -244,6 +268,10 @@ func load(repo, rel string) *pkg {
 		funcs: map[string]*ast.FuncDecl{}, funcFile: map[string]string{}, types: map[string]*ast.TypeSpec{},
 		typeFile: map[string]string{}, consts: map[string]*constSpec{}, vars: map[string]bool{}}
 	dir := filepath.Join(repo, rel)
+	if strings.HasPrefix(rel, "GOROOT:") {
+		dir = filepath.Join(goroot(), "src", filepath.FromSlash(strings.TrimPrefix(rel, "GOROOT:")))
+		p.rel = strings.TrimPrefix(rel, "GOROOT:")
+	}
 	ents, err := os.ReadDir(dir)
 	if err != nil {
 		warn("cannot read %s: %v", dir, err)
@@ -408,6 +436,7 @@ const (
 	kList    // loop fragment only: Sequence, []T, [N]T, ...T, translated as list T (elems[0] is T)
 	kFunc    // loop fragment only: a func-typed argument (elems[0] the result, elems[1:] the arguments): option (A -> B)
 	kClosure // loop fragment only: a local func literal (elems as kFunc); not a value, only called
+	kPtr     // integer fragment only: a struct field of type *T, T a struct (name, p): option T, nil is None
 )
 
 type field struct {
@@ -424,7 +453,8 @@ type ty struct {
 	elems  []*ty
 	coq    string // struct: name of the record
 	file   string
-	n      int // kArray: the length
+	n      int    // kArray: the length; kList (integer fragment): the length of an array type, 0 for a slice
+	ik     string // integer fragment: the predeclared integer type underneath (uint64, int64, int, uint8, ..)
 }
 
 var (
@@ -470,6 +500,8 @@ func (t *ty) String() string {
 			s = append(s, e.String())
 		}
 		return "func(" + strings.Join(s, ", ") + ") " + t.elems[0].String()
+	case kPtr:
+		return "*" + t.name
 	}
 	return "opaque " + t.name
 }
@@ -507,6 +539,8 @@ func (t *ty) coqType() string {
 			s += e.coqType() + " -> "
 		}
 		return "(option (" + s + t.elems[0].coqType() + "))"
+	case kPtr:
+		return "(option (" + t.p.name + "_" + t.name + " F))"
 	}
 	fail("type %s is outside the fragment", t)
 	return ""
@@ -517,10 +551,10 @@ func sameType(a, b *ty) bool {
 		return false
 	}
 	switch a.k {
-	case kStruct, kOpaque:
+	case kStruct, kOpaque, kPtr:
 		return a.name == b.name && a.p == b.p
 	case kInt:
-		return a.name == b.name
+		return a.name == b.name && (a.ik == "" || b.ik == "" || a.ik == b.ik)
 	case kTuple:
 		if len(a.elems) != len(b.elems) {
 			return false
@@ -566,6 +600,11 @@ type funcInfo struct {
 	result   *ty
 	partial  bool
 	eff      bool // loop fragment: the body can panic at run time (indexing, loops, ..): the result is partial T
+	// integer fragment: the arguments (receiver first) the body writes through - elements of a slice,
+	// fields of a pointer receiver; their final values are returned after the results
+	outs     []int
+	outTypes []*ty
+	pnames   []string // Go names of the arguments (receiver first)
 }
 
 type item struct {
@@ -590,6 +629,12 @@ type gen struct {
 	ext      bool // the extended fragment (second output, package carto)
 	loop     bool // the loop fragment (third output, coq/Gen/FuncsLoop.v)
 	seqOps   bool // loop fragment: Sequence.CoordinatesType / NewSequence occur (operations f_seq_ctype, f_seq_new)
+	intm     bool // the integer fragment (fourth output, coq/Gen/FuncsInt.v); implies loop and ptr
+	ptr      bool // pointers to structs as the values they point to (as in the extended fragment)
+	// integer fragment: recursive struct types.  recDeps[k] lists the structs that refer (through a pointer
+	// field) to the struct k while k was being resolved: they are emitted with k as one mutual Inductive
+	recDeps map[string][]*ty
+	inGroup map[*ty]bool
 }
 
 func (g *gen) pkgOf(rel string) *pkg {
@@ -613,6 +658,15 @@ func (g *gen) typeOf(p *pkg, file *ast.File, e ast.Expr) *ty {
 		case "bool":
 			return tBool
 		case "int", "int8", "int16", "int32", "int64", "uint", "uint8", "uint16", "uint32", "uint64", "byte", "rune":
+			if g.intm {
+				ik := x.Name
+				if ik == "byte" {
+					ik = "uint8"
+				} else if ik == "rune" {
+					ik = "int32"
+				}
+				return &ty{k: kInt, name: "", ik: ik}
+			}
 			return &ty{k: kInt, name: ""}
 		case "error":
 			return tError
@@ -628,7 +682,7 @@ func (g *gen) typeOf(p *pkg, file *ast.File, e ast.Expr) *ty {
 		}
 	case *ast.StarExpr:
 		// extended fragment: a pointer to a struct of the fragment is translated as the struct value
-		if g.ext {
+		if g.ext || g.ptr {
 			if t := g.typeOf(p, file, x.X); t.k == kStruct {
 				return t
 			}
@@ -639,7 +693,12 @@ func (g *gen) typeOf(p *pkg, file *ast.File, e ast.Expr) *ty {
 			if _, isEllipsis := x.Len.(*ast.Ellipsis); !isEllipsis {
 				et := g.typeOf(p, file, x.Elt)
 				if et.k == kFloat || et.k == kInt || et.k == kBool || et.k == kStruct {
-					return &ty{k: kList, elems: []*ty{et}}
+					n := 0
+					if g.intm && x.Len != nil {
+						// integer fragment: the length of an array type is kept (its zero value has that many elements)
+						n = g.arrayLen(p, file, x.Len)
+					}
+					return &ty{k: kList, elems: []*ty{et}, n: n}
 				}
 			}
 		}
@@ -693,6 +752,10 @@ func (g *gen) importedPkg(file *ast.File, local string) *pkg {
 		}
 		if name != local {
 			continue
+		}
+		if g.intm && path == "encoding/binary" {
+			// integer fragment: the varint functions of the standard library of the toolchain in use
+			return g.pkgOf("GOROOT:" + path)
 		}
 		// a package of the repository: the import path ends with its directory
 		for _, cand := range []string{"rtree", "geom"} {
@@ -748,6 +811,9 @@ func (g *gen) namedType(p *pkg, name string) *ty {
 			var fs []field
 			for _, f := range u.Fields.List {
 				ft := g.typeOf(p, file, f.Type)
+				if se, isPtr := f.Type.(*ast.StarExpr); isPtr && g.intm {
+					ft = g.ptrField(p, k, se)
+				}
 				if g.loop && len(f.Names) == 0 && ft.k == kStruct {
 					// loop fragment: an embedded struct is a field named after its type
 					if id, isId := f.Type.(*ast.Ident); isId {
@@ -755,7 +821,7 @@ func (g *gen) namedType(p *pkg, name string) *ty {
 						continue
 					}
 				}
-				if ft.k == kOpaque || ft.k == kError || ft.k == kFunc || len(f.Names) == 0 {
+				if ft.k == kOpaque || (ft.k == kError && !g.intm) || ft.k == kFunc || len(f.Names) == 0 {
 					ok = false
 					break
 				}
@@ -768,12 +834,15 @@ func (g *gen) namedType(p *pkg, name string) *ty {
 				g.structs[k] = t
 				g.sorder = append(g.sorder, t) // nested structs were appended by the recursive calls above
 				g.globals[t.coq] = true
+				g.noteRecFields(t)
+			} else if len(g.recDeps[k]) > 0 {
+				g.dropRecDeps(k) // structs that counted on this one being in the fragment
 			}
 		default:
 			ut := g.typeOf(p, file, ts.Type)
 			switch ut.k {
 			case kInt:
-				t = &ty{k: kInt, name: name, p: p}
+				t = &ty{k: kInt, name: name, p: p, ik: ut.ik}
 			case kFloat:
 				t = &ty{k: kFloat, name: name, p: p}
 			case kBool:
@@ -816,6 +885,10 @@ type ctx struct {
 	capBase  []int           // scope depth at the start of the enclosing func literals
 	captured map[*local]bool // variables a func literal refers to: never assigned afterwards
 	noEff    int             // > 0: inside `let vars := if .. then .. else ..` (no run-time checks there)
+	// integer fragment (int.go)
+	refLocals map[*local]int // arguments writes through which the caller sees (slices, pointer receiver) -> index
+	loopScope []int          // scope depth at the start of the enclosing loop bodies
+	scTry     int            // > 0: trying whether the right operand of && / || needs a run-time check
 }
 
 var reserved = map[string]bool{"F": true, "ops": true, "as": true, "at": true, "cofix": true, "else": true, "end": true,
@@ -872,7 +945,7 @@ func (c *ctx) fresh(base string) string {
 		n = "v"
 	}
 	cand := n
-	for i := 1; reserved[cand] || (c.g.loop && loopReserved[cand]) || (c.g.ext && (extReserved[cand] || strings.HasPrefix(cand, "t_"))) || c.used[cand] || c.g.globals[cand] || strings.HasPrefix(cand, "f_") || strings.HasPrefix(cand, "Mk_"); i++ {
+	for i := 1; reserved[cand] || (c.g.loop && loopReserved[cand]) || (c.g.intm && intReserved[cand]) || (c.g.ext && (extReserved[cand] || strings.HasPrefix(cand, "t_"))) || c.used[cand] || c.g.globals[cand] || strings.HasPrefix(cand, "f_") || strings.HasPrefix(cand, "Mk_"); i++ {
 		cand = fmt.Sprintf("%s_%d", n, i)
 	}
 	c.used[cand] = true
@@ -923,6 +996,10 @@ func (c *ctx) conv(v val, t *ty, what string) val {
 	if v.t.k == kUntyped {
 		return c.constAt(v.c, t)
 	}
+	if v.t.k == kPtr && t.k == kStruct && v.t.name == t.name && v.t.p == t.p {
+		// integer fragment: a pointer field passed where the translation takes the struct value
+		return c.deref(v)
+	}
 	if !sameType(v.t, t) {
 		fail("%s: have %s, want %s", what, v.t, t)
 	}
@@ -957,7 +1034,12 @@ func (c *ctx) zero(t *ty) string {
 			s[i] = c.zero(t.elems[0])
 		}
 		return c.tuple(s)
+	case kPtr:
+		return "None"
 	case kList:
+		if t.n > 0 {
+			return fmt.Sprintf("(repeat %s %d)", c.zero(t.elems[0]), t.n)
+		}
 		return "(@nil " + t.elems[0].coqType() + ")"
 	}
 	fail("no zero value of type %s in the fragment", t)
@@ -1114,6 +1196,9 @@ func (c *ctx) expr(e ast.Expr, hint *ty) val {
 			}
 		}
 		r := c.expr(x.X, nil)
+		if r.t.k == kPtr {
+			r = c.deref(r)
+		}
 		f, ok := c.fieldOf(r.t, x.Sel.Name)
 		if !ok {
 			if v, ok := c.promoted(r, x.Sel.Name); ok {
@@ -1139,11 +1224,19 @@ func (c *ctx) expr(e ast.Expr, hint *ty) val {
 				return v
 			case kInt:
 				if x.Op == token.SUB {
-					return val{code: "(Z.opp " + v.code + ")", t: v.t}
+					return val{code: c.wrapInt("(Z.opp "+v.code+")", v.t), t: v.t}
 				}
 				return v
 			}
 			fail("unary %s on %s", x.Op, v.t)
+		case token.XOR:
+			if c.g.intm {
+				v := c.expr(x.X, hint)
+				if v.t.k == kInt {
+					return val{code: c.wrapInt("(Z.lnot "+v.code+")", v.t), t: v.t}
+				}
+				fail("unary ^ on %s", v.t)
+			}
 		case token.NOT:
 			v := c.expr(x.X, tBool)
 			if v.t.k != kBool {
@@ -1152,13 +1245,17 @@ func (c *ctx) expr(e ast.Expr, hint *ty) val {
 			return val{code: "(negb " + v.code + ")", t: v.t}
 		case token.AND:
 			// extended fragment: &T{..} is the struct value (a pointer is translated as what it points to)
-			if cl, ok := unparen(x.X).(*ast.CompositeLit); ok && c.g.ext {
+			if cl, ok := unparen(x.X).(*ast.CompositeLit); ok && (c.g.ext || c.g.ptr) {
 				return c.composite(cl)
 			}
 		}
 		fail("unary operator %s is outside the fragment", x.Op)
 	case *ast.BinaryExpr:
 		return c.binary(x, hint)
+	case *ast.SliceExpr:
+		if c.g.intm {
+			return c.sliceExpr(x)
+		}
 	case *ast.CompositeLit:
 		return c.composite(x)
 	case *ast.CallExpr:
@@ -1273,6 +1370,9 @@ func (c *ctx) binary(x *ast.BinaryExpr, hint *ty) val {
 		pmark := len(c.pend)
 		b := c.expr(x.Y, tBool)
 		if len(c.pend) != pmark {
+			if c.scTry > 0 {
+				panic(effInShortCircuit{})
+			}
 			fail("a run-time check (indexing, call that can panic) in the right operand of %s", x.Op)
 		}
 		if a.t.k != kBool || b.t.k != kBool {
@@ -1302,6 +1402,11 @@ func (c *ctx) binary(x *ast.BinaryExpr, hint *ty) val {
 			f = "Z.shiftr"
 		}
 		return val{code: "(" + f + " " + a.code + " " + b.code + ")", t: a.t}
+	}
+	if c.g.intm {
+		if v, ok := c.intBitOp(x, hint); ok {
+			return v
+		}
 	}
 	if (x.Op == token.REM || x.Op == token.AND) && c.g.loop {
 		// loop fragment: % and & on integers (Z.rem truncates like Go; Z.land on non-negative values)
@@ -1396,13 +1501,13 @@ func (c *ctx) binary(x *ast.BinaryExpr, hint *ty) val {
 	case kInt:
 		switch x.Op {
 		case token.ADD:
-			return val{code: bin("Z.add"), t: t}
+			return val{code: c.wrapInt(bin("Z.add"), t), t: t}
 		case token.SUB:
-			return val{code: bin("Z.sub"), t: t}
+			return val{code: c.wrapInt(bin("Z.sub"), t), t: t}
 		case token.MUL:
-			return val{code: bin("Z.mul"), t: t}
+			return val{code: c.wrapInt(bin("Z.mul"), t), t: t}
 		case token.QUO:
-			return val{code: bin("Z.quot"), t: t}
+			return val{code: c.wrapInt(bin("Z.quot"), t), t: t}
 		case token.LSS:
 			return val{code: bin("Z.ltb"), t: tBool}
 		case token.LEQ:
@@ -1563,6 +1668,9 @@ var mathFuncsExt = map[string]struct {
 
 func (c *ctx) call(x *ast.CallExpr, hint *ty) val {
 	if x.Ellipsis != token.NoPos {
+		if id, ok := unparen(x.Fun).(*ast.Ident); ok && c.g.intm && id.Name == "append" && c.lookup("append") == nil && len(x.Args) == 2 {
+			return c.appendSpread(x.Args[0], x.Args[1])
+		}
 		fail("call with ... is outside the fragment")
 	}
 	switch f := unparen(x.Fun).(type) {
@@ -1580,7 +1688,7 @@ func (c *ctx) call(x *ast.CallExpr, hint *ty) val {
 		}
 		// conversion
 		if _, isFunc := c.p.funcs[f.Name]; !isFunc {
-			if f.Name == "float64" || c.p.types[f.Name] != nil || f.Name == "int" {
+			if f.Name == "float64" || c.p.types[f.Name] != nil || f.Name == "int" || (c.g.intm && intKinds[f.Name]) {
 				t := c.g.typeOf(c.p, c.file, f)
 				if len(x.Args) != 1 {
 					fail("conversion with %d arguments", len(x.Args))
@@ -1589,6 +1697,9 @@ func (c *ctx) call(x *ast.CallExpr, hint *ty) val {
 				switch {
 				case v.t.k == kUntyped && (t.k == kFloat || t.k == kInt):
 					return c.constAt(v.c, t)
+				case v.t.k == kInt && t.k == kInt && c.g.intm:
+					// integer fragment: a conversion between integer types wraps into the range of the target
+					return val{code: c.wrapInt(v.code, t), t: t}
 				case v.t.k == t.k && (t.k == kFloat || t.k == kInt):
 					// float64(x) of a float64 x: the identity on values (it only forbids a fused multiply-add)
 					return val{code: v.code, t: t}
@@ -1725,6 +1836,9 @@ func (c *ctx) callFunc(q *pkg, key string, recv ast.Expr, args []ast.Expr) val {
 		}
 		s += " " + c.conv(c.expr(a, pt), pt, fmt.Sprintf("argument %d of %s", i, key)).code
 	}
+	if len(fi.outs) > 0 {
+		return c.callWithOuts(fi, s+")", all, key)
+	}
 	if fi.partial || fi.eff {
 		return val{code: c.bindPartial(s + ")"), t: fi.result}
 	}
@@ -1771,6 +1885,11 @@ func (c *ctx) errIsNil(e ast.Expr) string {
 		v := c.call(x, nil)
 		if v.t.k == kError {
 			return v.code
+		}
+	}
+	if c.g.intm {
+		if v := c.expr(e, nil); v.t.k == kPtr {
+			return "(is_nil_func " + v.code + ")"
 		}
 	}
 	fail("error expression %s is outside the fragment", exprString(e))
@@ -1829,6 +1948,9 @@ func (c *ctx) stmts(list []ast.Stmt, k func(n int) string, n int) (out string) {
 	case *ast.BlockStmt:
 		return c.block(s.List, rest, n)
 	case *ast.ForStmt:
+		if c.g.intm && s.Init == nil && s.Post == nil && s.Cond != nil {
+			return c.whileStmt(s, rest, n)
+		}
 		if c.g.loop {
 			return c.forStmt(s, rest, n)
 		}
@@ -1973,9 +2095,12 @@ func (c *ctx) returnValue(s *ast.ReturnStmt) string {
 			}
 			parts = append(parts, l.coq)
 		}
-		return c.tuple(parts)
+		return c.tuple(append(parts, c.outValues()...))
 	}
 	if len(s.Results) == 1 && len(want) > 1 {
+		if c.closure == 0 && len(c.fi.outs) > 0 {
+			fail("return of a call with several results in a function that writes through an argument")
+		}
 		v := c.expr(s.Results[0], nil)
 		if !sameType(v.t, rt) {
 			fail("return of %s, want %s", v.t, rt)
@@ -1993,7 +2118,7 @@ func (c *ctx) returnValue(s *ast.ReturnStmt) string {
 		}
 		parts = append(parts, c.conv(c.expr(r, want[i]), want[i], "returned value").code)
 	}
-	return c.tuple(parts)
+	return c.tuple(append(parts, c.outValues()...))
 }
 
 // the chain of field names of an assignable expression rooted at a local variable
@@ -2061,12 +2186,16 @@ func (c *ctx) assign(s *ast.AssignStmt, n int) string {
 	var b strings.Builder
 	switch s.Tok {
 	case token.DEFINE, token.ASSIGN:
+	case token.REM_ASSIGN, token.AND_ASSIGN, token.OR_ASSIGN, token.XOR_ASSIGN, token.SHL_ASSIGN, token.SHR_ASSIGN, token.AND_NOT_ASSIGN:
+		if !c.g.intm {
+			fail("assignment operator %s is outside the fragment", s.Tok)
+		}
+		fallthrough
 	case token.ADD_ASSIGN, token.SUB_ASSIGN, token.MUL_ASSIGN, token.QUO_ASSIGN:
 		if len(s.Lhs) != 1 || len(s.Rhs) != 1 {
 			fail("operator assignment with several operands")
 		}
-		op := map[token.Token]token.Token{token.ADD_ASSIGN: token.ADD, token.SUB_ASSIGN: token.SUB,
-			token.MUL_ASSIGN: token.MUL, token.QUO_ASSIGN: token.QUO}[s.Tok]
+		op := opOfAssign[s.Tok]
 		return c.assign(&ast.AssignStmt{Lhs: s.Lhs, Tok: token.ASSIGN,
 			Rhs: []ast.Expr{&ast.BinaryExpr{X: s.Lhs[0], Op: op, Y: &ast.ParenExpr{X: s.Rhs[0]}}}}, n)
 	default:
@@ -2086,6 +2215,9 @@ func (c *ctx) assign(s *ast.AssignStmt, n int) string {
 			} else {
 				v = c.expr(r, hint)
 				if v.t.k == kUntyped {
+					if hint == nil && c.g.intm && v.c.IsInt() {
+						hint = &ty{k: kInt, ik: "int"} // integer fragment: the default type of an integer constant
+					}
 					if hint == nil {
 						fail("%s := untyped constant (the default type is not tracked)", exprString(s.Lhs[i]))
 					}
@@ -2165,10 +2297,16 @@ func (c *ctx) assign(s *ast.AssignStmt, n int) string {
 			fail("assignment to %s, which is not a local variable", root)
 		}
 		c.checkNotCaptured(lv, root)
+		c.noteWrite(lv)
 		fmt.Fprintf(&b, "%slet %s := %s in\n", ind(n), lv.coq, c.update(lv.coq, lv.t, path, vals[i].code, vals[i].t, exprString(l)))
 	}
 	return b.String()
 }
+
+var opOfAssign = map[token.Token]token.Token{token.ADD_ASSIGN: token.ADD, token.SUB_ASSIGN: token.SUB,
+	token.MUL_ASSIGN: token.MUL, token.QUO_ASSIGN: token.QUO, token.REM_ASSIGN: token.REM, token.AND_ASSIGN: token.AND,
+	token.OR_ASSIGN: token.OR, token.XOR_ASSIGN: token.XOR, token.SHL_ASSIGN: token.SHL, token.SHR_ASSIGN: token.SHR,
+	token.AND_NOT_ASSIGN: token.AND_NOT}
 
 func allIdents(l []ast.Expr) bool {
 	for _, e := range l {
@@ -2286,6 +2424,11 @@ func (c *ctx) ifStmt(s *ast.IfStmt, rest func(n int) string, n int) string {
 	if s.Init != nil {
 		// if init; cond {..}  ==  { init; if cond {..} }
 		return c.block([]ast.Stmt{s.Init, &ast.IfStmt{If: s.If, Cond: s.Cond, Body: s.Body, Else: s.Else}}, rest, n)
+	}
+	if be, isBin := unparen(s.Cond).(*ast.BinaryExpr); isBin && c.g.intm && (be.Op == token.LOR || be.Op == token.LAND) {
+		if rw := c.splitShortCircuit(s, be); rw != nil {
+			return c.ifStmt(rw, rest, n)
+		}
 	}
 	cond := c.cond(s.Cond)
 	var roots []string
@@ -2433,9 +2576,17 @@ func (g *gen) translate(p *pkg, key string, partial bool) *funcInfo {
 		where = p.rel + "/" + p.funcFile[key]
 	}
 	def, err := g.translateBody(p, fd, fi)
-	if err == needEffectMarker {
-		// loop fragment: the body contains a run-time check: translated again, with the result type partial T
-		fi.eff, fi.params, fi.dropped, fi.variadic = true, nil, nil, false
+	for tries := 0; tries < 16 && (err == needEffectMarker || strings.HasPrefix(err, needOutMarker)); tries++ {
+		if err == needEffectMarker {
+			// loop fragment: the body contains a run-time check: translated again, with the result type partial T
+			fi.eff = true
+		} else {
+			// integer fragment: the body writes through an argument: translated again, returning its final value too
+			idx, _ := strconv.Atoi(strings.TrimPrefix(err, needOutMarker))
+			fi.outs = append(fi.outs, idx)
+			sort.Ints(fi.outs)
+		}
+		fi.params, fi.dropped, fi.variadic, fi.outTypes, fi.pnames = nil, nil, false, nil, nil
 		def, err = g.translateBody(p, fd, fi)
 	}
 	if err != "" {
@@ -2467,6 +2618,10 @@ func (g *gen) translateBody(p *pkg, fd *ast.FuncDecl, fi *funcInfo) (def string,
 				err = needEffectMarker
 				return
 			}
+			if no, is := r.(needOut); is {
+				err = needOutMarker + strconv.Itoa(int(no))
+				return
+			}
 			e, ok := r.(trErr)
 			if !ok {
 				panic(r)
@@ -2488,8 +2643,18 @@ func (g *gen) translateBody(p *pkg, fd *ast.FuncDecl, fi *funcInfo) (def string,
 	var binders []string
 	var recvT *ty // extended fragment: the struct type of a pointer receiver
 	recvName := ""
-	addParam := func(name string, t *ty) {
+	addParam := func(name string, t *ty, ref bool) {
 		fi.params = append(fi.params, t)
+		fi.pnames = append(fi.pnames, name)
+		defer func() {
+			// integer fragment: writes through this argument are visible to the caller
+			if l := c.scopes[0][name]; ref && g.intm && l != nil && l.coq != "" {
+				if c.refLocals == nil {
+					c.refLocals = map[*local]int{}
+				}
+				c.refLocals[l] = len(fi.params) - 1
+			}
+		}()
 		if t.k == kOpaque || t.k == kTuple {
 			fi.dropped = append(fi.dropped, true)
 			if name != "_" && name != "" {
@@ -2508,7 +2673,7 @@ func (g *gen) translateBody(p *pkg, fd *ast.FuncDecl, fi *funcInfo) (def string,
 	}
 	if fd.Recv != nil && len(fd.Recv.List) == 1 {
 		rn, ptr := recvTypeName(fd)
-		if ptr && !g.ext {
+		if ptr && !g.ext && !g.ptr {
 			fail("pointer receiver")
 		}
 		name := ""
@@ -2522,7 +2687,7 @@ func (g *gen) translateBody(p *pkg, fd *ast.FuncDecl, fi *funcInfo) (def string,
 			}
 			recvT, recvName = rt, name
 		}
-		addParam(name, rt)
+		addParam(name, rt, ptr)
 	}
 	for _, f := range fd.Type.Params.List {
 		t := g.typeOf(p, c.file, f.Type)
@@ -2534,11 +2699,13 @@ func (g *gen) translateBody(p *pkg, fd *ast.FuncDecl, fi *funcInfo) (def string,
 				fi.variadic = true
 			}
 		}
+		_, isPtr := f.Type.(*ast.StarExpr)
+		ref := isPtr || (t.k == kList && t.n == 0)
 		if len(f.Names) == 0 {
-			addParam("", t)
+			addParam("", t, ref)
 		}
 		for _, id := range f.Names {
-			addParam(id.Name, t)
+			addParam(id.Name, t, ref)
 		}
 	}
 	void := fd.Type.Results == nil || len(fd.Type.Results.List) == 0
@@ -2571,6 +2738,12 @@ func (g *gen) translateBody(p *pkg, fd *ast.FuncDecl, fi *funcInfo) (def string,
 	} else {
 		fi.result = &ty{k: kTuple, elems: rts}
 	}
+	for _, i := range fi.outs {
+		if i >= len(fi.params) || fi.dropped[i] {
+			fail("internal: written argument %d is not translated", i)
+		}
+		fi.outTypes = append(fi.outTypes, fi.params[i])
+	}
 	// named results are variables holding the zero value
 	var pre strings.Builder
 	if len(rnames) == len(rts) {
@@ -2592,7 +2765,7 @@ func (g *gen) translateBody(p *pkg, fd *ast.FuncDecl, fi *funcInfo) (def string,
 		fail("control reaches the end of the function without a return")
 		return ""
 	}, 1)
-	rtype := fi.result.coqType()
+	rtype := c.fullResultType().coqType()
 	if fi.partial || fi.eff {
 		rtype = "partial " + rtype
 	}
@@ -2641,6 +2814,27 @@ Import ListNotations.
 Open Scope bool_scope.
 `
 
+const headerInt = `(* GENERATED FILE - do not edit.  Written by tools/gen_funcs (tools/gen_funcs.sh, fourth output) from
+   the Go source of the library under test - and, for the varint functions TWKB uses, from
+   encoding/binary of the Go toolchain in use - on every run of tools/check.py: integer and bit
+   level functions.  Each definition is the body of one Go function, translated operator by operator,
+   statement by statement from the syntax tree into Gallina; nothing is simplified.  Integers of
+   every fixed-width type are values of Z; wherever Go wraps around the translation says so: the
+   result of every arithmetic or bit operation and of every conversion is reduced into the range of
+   its type by wrap_u8 .. wrap_u64 (modulo 2^n) / wrap_i8 .. wrap_i64 (two's complement) of
+   coq/Base/FInt.v (int and uint are 64 bits wide).  Slices, indexing and loops are translated as in
+   coq/Base/FLoop.v; a condition-only for loop is [while_loop] with a fuel derived from the loop.
+   A function that writes through an argument (elements of a slice argument, fields of a pointer
+   receiver) returns the final value of that argument after its results.  The obligations that the
+   hand-written models compute the same functions on all arguments are in
+   coq/Proofs/Funcs_tie_Int_*.v.  A function that could not be located or that leaves the
+   translated fragment is set to [untranslatable "reason"], which breaks its obligation. *)
+From Coq Require Import ZArith Bool String List.
+From SF Require Import Base.FOps Base.FLoop Base.FInt.
+Import ListNotations.
+Open Scope bool_scope.
+`
+
 const headerCarto = `(* GENERATED FILE - do not edit.  Written by tools/gen_funcs (tools/gen_funcs.sh, second output) from
    the Go source of the library under test, on every run of tools/check.py: the package carto (nine
    map projections: constructor, setters, Forward, Reverse; the helpers of carto/util.go; the radius
@@ -2664,6 +2858,13 @@ func (g *gen) emit(header string, floatConsts []item) []byte {
 	b.WriteString(header)
 	b.WriteString("\n(* ==================== struct types (one record per Go struct, fields in declaration order) *)\n")
 	for _, t := range g.sorder {
+		if g.inGroup[t] {
+			continue // emitted with the struct it refers to
+		}
+		if grp := g.recDeps[t.p.rel+":"+t.name]; len(grp) > 0 {
+			g.emitRecGroup(&b, append(append([]*ty(nil), grp...), t))
+			continue
+		}
 		fmt.Fprintf(&b, "\n(* %s/%s: type %s struct *)\n", t.p.rel, t.file, t.name)
 		fmt.Fprintf(&b, "Record %s (F : Type) := Mk_%s {", t.coq, t.coq)
 		for i, f := range t.fields {
@@ -2765,6 +2966,7 @@ func main() {
 	out := flag.String("o", "", "output file of the kernel functions, coq/Gen/Funcs.v (- for stdout)")
 	outCarto := flag.String("ocarto", "", "output file of the package carto, coq/Gen/FuncsCarto.v (- for stdout)")
 	outLoop := flag.String("oloop", "", "output file of the functions with loops over sequences, coq/Gen/FuncsLoop.v (- for stdout)")
+	outInt := flag.String("oint", "", "output file of the integer / bit functions (varints, R-tree), coq/Gen/FuncsInt.v (- for stdout)")
 	flag.Parse()
 	if *repo == "" {
 		*repo = os.Getenv("VERIF_REPO")
@@ -2772,7 +2974,7 @@ func main() {
 	if *repo == "" {
 		*repo = "/repo"
 	}
-	if *out == "" && *outCarto == "" && *outLoop == "" {
+	if *out == "" && *outCarto == "" && *outLoop == "" && *outInt == "" {
 		*out = "-"
 	}
 	if *out != "" {
@@ -2803,5 +3005,14 @@ func main() {
 			g.translate(g.pkgOf(r.pkg), r.key, r.partial)
 		}
 		writeOut(*outLoop, g.emit(headerLoop, nil))
+	}
+	if *outInt != "" {
+		warnings = nil
+		g := newGen(*repo, false)
+		g.loop, g.intm, g.ptr = true, true, true
+		for _, r := range intRoots {
+			g.translate(g.pkgOf(r.pkg), r.key, r.partial)
+		}
+		writeOut(*outInt, g.emit(headerInt, nil))
 	}
 }
